@@ -11,11 +11,12 @@ import (
 )
 
 type Gen struct {
-	r     *rand.Rand
-	steps []Step
-	names int
-	big   bool // thorough tier: larger sizes
-	stats map[string]int
+	r       *rand.Rand
+	steps   []Step
+	names   int
+	big     bool // thorough tier: larger sizes
+	ownVars bool // a fill value that brings its own variables was generated
+	stats   map[string]int
 }
 
 func newGen(r *rand.Rand, big bool, stats map[string]int) *Gen {
